@@ -69,7 +69,7 @@ func C08(c *vk.Ctx) {
 					w := Wire{Rev: rev, Compressed: lz4, Method: refwire.MethodLZ4}
 					n := 0
 					for _, p := range s {
-						n += len(p.bytes(w))
+						n += len(p.bytes(w, 0))
 					}
 					run(k, seg{oneByte: true}, "one-byte", "1b")
 					run(k, seg{gaps: true}, "gaps", "gaps")
